@@ -3,14 +3,15 @@ sys.path.insert(0, os.path.join(os.path.dirname(os.path.abspath(__file__)), '..'
 META = dict(
     title='Area features and plumes occupy exactly their declared footprint and depth range',
     technique='CBMC code contracts (DFCC): ghost closed-winding-number definition run in lock step with the mechanically extracted polygon kernel (loop invariant), orientation/dot/length expressions compared structurally; extent guards of the area features as "writes iff covers" (shared with C02)',
-    level_text='Proof for all polygons up to the size bound (the loop is closed by an invariant) and all non-NaN coordinates: the polygon '
-               'test answers on_boundary || winding_number != 0 for the closed discrete winding-number definition written from the textbook; '
-               'the wrapper tries the point and, in spherical worlds, the point shifted by 2 pi towards the other side of zero longitude; the '
-               'area features write iff min<=depth<=max (global and local, closed) and the polygon test holds (C02 units).',
+    level_text='Proof for all inputs: an area feature writes into the answer iff min depth <= depth <= max depth (global value and local depth '
+               'surface, closed intervals) and the polygon test on its coordinates answers true for the surface position (same unit as C02); the '
+               'polygon wrapper asks the kernel for the point and, in spherical worlds only, for the point shifted by 2 pi towards the other side of '
+               'zero longitude, and answers the disjunction; the Point<2> difference / dot product / squared norm used by the kernel compute their '
+               'definitions.',
     level_note='Trusted: translator, shims, CBMC; the winding-number theorem (non-zero exactly inside a simple polygon) and that the '
                'floating-point orientation test has the sign of the exact one are mathematics outside the proof; Point<2> operators are separate units.',
-    scope='Utilities::polygon_contains_point(_implementation), Point<2> operator-/dot/norm_square; extent guards of ContinentalPlate/OceanicPlate/MantleLayer::properties (C02 units)',
-    not_covered=['plume cross-section interpolation and ellipse membership (Plume::properties, fraction_from_ellipse_center)', 'sign-exactness of the floating-point orientation predicate'],
+    scope='Utilities::polygon_contains_point (alias wrapper), Point<2> operator-/dot/norm_square; extent guard of ContinentalPlate::properties (OceanicPlate/MantleLayer: same contract, run under C02)',
+    not_covered=['the winding-number kernel polygon_contains_point_implementation itself (contract and ghost definition are written - unit polygon_impl - but the proof does not finish in the time budget; it is not counted)', 'plume cross-section interpolation and ellipse membership (Plume::properties, fraction_from_ellipse_center)', 'sign-exactness of the floating-point orientation predicate'],
     enforced_elsewhere={'Point2_op_sub': 'C04/point2_sub', 'Point2_dot': 'C04/point2_dot', 'Point2_norm_square': 'C04/point2_norm_square',
                         'Utilities_polygon_contains_point_implementation': 'C04/polygon_impl'},
 )
@@ -24,7 +25,7 @@ GHOST = '''{
   double v0x = point_list->data[j].point.e[0], v0y = point_list->data[j].point.e[1], v1x = point_list->data[i].point.e[0], v1y = point_list->data[i].point.e[1];
   double px = point->point.e[0], py = point->point.e[1];
   double il = FPX((v1x - v0x) * (py - v0y) - (px - v0x) * (v1y - v0y));
-  double d0x = px - v0x, d0y = py - v0y, e0x = v1x - v0x, e0y = v1y - v0y;
+  double d0x = FPXA(px - v0x), d0y = FPXA(py - v0y), e0x = FPXA(v1x - v0x), e0y = FPXA(v1y - v0y);
   double dotv = DOT2(d0x, d0y, e0x, e0y);
   double sq = SQ2(e0x, e0y);
   _Bool up = v0y <= py && v1y > py, down = v0y > py && v1y <= py;
@@ -33,21 +34,21 @@ GHOST = '''{
   _Bool onseg = fabs(il) < DBL_EPSILON && dotv >= 0.0 && dotv <= sq;
   if (vhit) g_on = 1; else if (up && il > 0.0) g_up++; else if (down && il < 0.0) g_down++; else if (touches && onseg) g_on = 1;
 }'''
-UNITS = [
+UNITS_ALL = [
     dict(name='point2_sub', enforce='Point2_op_sub', contracts='c04_polygon.c', harness='h_point2_sub',
          targets=[dict(tu=PT, qual='WorldBuilder::Point<2>::operator-', sig='Point<2U> (const Point<2U> &) const', cname='Point2_op_sub')],
-         aliases=ALIASES, outline_fp=True, unwind_complete=3, defines=dict(DEF), expect_fail=['REACHABILITY-GUARD']),
+         aliases=ALIASES, outline_fp='all', unwind_complete=3, defines=dict(DEF), expect_fail=['REACHABILITY-GUARD']),
     dict(name='point2_dot', enforce='Point2_dot', contracts='c04_polygon.c', harness='h_point2_dot',
          targets=[dict(tu=PT, qual='WorldBuilder::Point<2>::operator*', sig='double (const Point<2', cname='Point2_dot')],
-         aliases=ALIASES, outline_fp=True, unwind_complete=3, defines=dict(DEF), expect_fail=['REACHABILITY-GUARD']),
+         aliases=ALIASES, outline_fp='all', unwind_complete=3, defines=dict(DEF), expect_fail=['REACHABILITY-GUARD']),
     dict(name='point2_norm_square', enforce='Point2_norm_square', contracts='c04_polygon.c', harness='h_point2_norm_square',
          targets=[dict(tu=PT, qual='WorldBuilder::Point<2>::norm_square')],
-         aliases=ALIASES, outline_fp=True, defines=dict(DEF), expect_fail=['REACHABILITY-GUARD']),
-    dict(name='polygon_impl', enforce=FN, contracts='c04_polygon.c', harness='h_polygon_impl',
+         aliases=ALIASES, outline_fp='all', defines=dict(DEF), expect_fail=['REACHABILITY-GUARD']),
+    dict(name='polygon_impl', enforce=FN, experimental='closed winding-number proof of the kernel: written, canaries fail as expected, but the UNSAT proof does not finish within 600 s on cadical/minisat at 4 vertices (2.1M variables); not part of the claimed check', contracts='c04_polygon.c', harness='h_polygon_impl',
          targets=[dict(tu=UT, qual='WorldBuilder::Utilities::polygon_contains_point_implementation')],
          aliases=ALIASES, stub=['Point2_op_sub', 'Point2_dot', 'Point2_norm_square'], nothrow=['Point2_op_sub', 'Point2_dot', 'Point2_norm_square'],
          replace=['Point2_op_sub', 'Point2_dot', 'Point2_norm_square'],
-         outline_fp=True, defines=dict(DEF), defines_thorough=dict(DEFT), expect_fail=['REACHABILITY-GUARD'], timeout=600,
+         outline_fp='all', defines=dict(DEF), defines_thorough=dict(DEFT), expect_fail=['REACHABILITY-GUARD'], timeout=900,
          canaries=[(r'>= \(\*Point2_op_index__unsignedlong_c\(point, \(\(unsigned long\)1\)\)\)\)\)\n\s*\{\n\s*double is_left', '> (*Point2_op_index__unsignedlong_c(point, ((unsigned long)1)))))\n          {\n            double is_left', 'upward edge test >= weakened to >'),
                    (r'if \(\(is_left < \(\(double\)0\)\)\)', 'if ((is_left <= ((double)0)))', 'downward crossing counts points on the edge line')],
          loops={(FN, 1): dict(
@@ -60,3 +61,10 @@ UNITS = [
          targets=[dict(tu=UT, qual='WorldBuilder::Utilities::polygon_contains_point')],
          aliases=ALIASES, stub=[FN], nothrow=[FN], replace=[FN], outline_fp='all', defines=dict(DEF), expect_fail=['REACHABILITY-GUARD']),
 ]
+
+# the area-feature extent guard ("writes iff covers") is the C02 contract; run it here for one family
+import importlib.util as _ilu
+_spec = _ilu.spec_from_file_location('c02', os.path.join(os.path.dirname(os.path.abspath(__file__)), 'C02.py'))
+_c02 = _ilu.module_from_spec(_spec)
+_spec.loader.exec_module(_c02)
+UNITS = [u for u in UNITS_ALL if not u.get('experimental')] + [u for u in _c02.UNITS if u['name'] == 'continental_plate_properties']
